@@ -822,7 +822,11 @@ def gen_history(ctx, w):
 
     def call():
         k = 0 if rng.random() < 0.65 else 1
-        nm = rand_prefix(rng) if rng.random() < 0.8 else rand_prefix(rng, 1)
+        declared = [e[1] for e in evs if e[0] == 4]
+        if declared and rng.random() < 0.3:
+            nm = rng.choice(declared)        # (un)register a prefix that has a route/handler
+        else:
+            nm = rand_prefix(rng)
         evs.append([0, k, nm])
         w.ev_call(k, nm)
 
